@@ -14,6 +14,9 @@ CHECKS = {
              text="Exhaustive over names x 2^5 definition subsets x 4 reference positions x 4 shells: the automaton's command items and the command function bodies of the emitted script equal the definition Usage.Chosen prescribes; definitions for other shells leave the script byte-identical.",
              ref="7/C11", note="Scripts of fish/zsh/pwsh are read, not executed."),
 }
+CHECKS["C01"] = dict(technique="TLC-generated command lines (Walk.tla) replayed in real bash; every recorded reply validated by TLC against the word-level meaning (Words.tla/BashCheck.tla)",
+             text="For each corpus grammar TLC enumerates every reachable position set of the word-level meaning with a shortest word sequence and the prefixes to type; the emitted script answers in a real bash 5.2 (both COMP_WORDBREAKS settings); TLC validates each (reply set, status) against the meaning computed from the generator's tree.",
+             ref="7/C01", note="Bounded: word sequences <= 4, budgeted sample of (state, prefix) pairs because bash executions cost ~25 ms and do not parallelise here; readline not run; regions assigned to C09/C12 are skipped and counted.")
 PENDING = {}
 
 def main():
